@@ -13,7 +13,12 @@ package iobroker
 
 import (
 	"context"
+	"encoding/json"
+	"fmt"
+	"os"
+	"path/filepath"
 	"strings"
+	"sync"
 	"sync/atomic"
 )
 
@@ -21,6 +26,7 @@ import (
 // filled in at points reached while b.mu is held.
 type VerifState struct {
 	Seq    uint64 /* Stamp, incremented under b.mu. */
+	Att    uint64 /* Number of the connect call this point belongs to. */
 	Key    string /* b.key; the bidirectional sentinel is mapped to BIDIR. */
 	In     bool   /* nil != b.cancelIn */
 	Out    bool   /* nil != b.cancelOut */
@@ -55,7 +61,11 @@ type verifTok struct {
 	b   *Broker
 	dir string
 	key string
+	att uint64
 }
+
+// verifAtt numbers the connect calls of this process.
+var verifAtt atomic.Uint64
 
 // verifKey maps the bidirectional sentinel (plus any per-request suffix) to
 // a printable word.
@@ -72,7 +82,7 @@ func (b *Broker) verifStart(
 	dir sDirection,
 	key string,
 ) verifTok {
-	vt := verifTok{ctx: ctx, b: b, dir: string(dir), key: b.verifKey(key)}
+	vt := verifTok{ctx: ctx, b: b, dir: string(dir), key: b.verifKey(key), att: verifAtt.Add(1)}
 	vt.at("admit")
 	return vt
 }
@@ -100,7 +110,53 @@ func (vt verifTok) at(point string) {
 			Locked: true,
 		}
 	}
+	st.Att = vt.att
 	h(vt.ctx, vt.b, point, vt.dir, vt.key, st)
+}
+
+// With VERIF_TRACE=<directory> in the environment every hook point is also
+// appended, as one JSON object per line, to <directory>/trace-<pid>.ndjson, so
+// that executions of the package's own tests can be validated against the
+// specification.  A harness that installs its own VerifHook replaces this.
+func init() {
+	dir := os.Getenv("VERIF_TRACE")
+	if "" == dir {
+		return
+	}
+	f, err := os.OpenFile(
+		filepath.Join(dir, fmt.Sprintf("trace-%d.ndjson", os.Getpid())),
+		os.O_CREATE|os.O_WRONLY|os.O_APPEND,
+		0600,
+	)
+	if nil != err {
+		return
+	}
+	var (
+		mu      sync.Mutex
+		brokers = make(map[*Broker]int)
+		enc     = json.NewEncoder(f)
+	)
+	VerifHook = func(
+		_ context.Context,
+		b *Broker,
+		point string,
+		dir string,
+		key string,
+		st VerifState,
+	) {
+		mu.Lock()
+		defer mu.Unlock()
+		id, ok := brokers[b]
+		if !ok {
+			id = len(brokers) + 1
+			brokers[b] = id
+		}
+		enc.Encode(map[string]any{
+			"b": id, "att": st.Att, "p": point, "dir": dir, "key": key,
+			"seq": st.Seq, "skey": st.Key, "in": st.In, "out": st.Out,
+			"nomore": st.NoMore, "locked": st.Locked,
+		})
+	}
 }
 
 // VerifSnapshot returns the broker's admission state.  It takes b.mu.
